@@ -324,10 +324,11 @@ class Interp:
         if c is not None:
             return self.apply_contract(c, args, kwargs)
         try:
-            if f in self.models:
-                return self.models[f](self, *args, **kwargs)
-        except TypeError:
-            pass
+            mdl = self.models.get(f)
+        except TypeError:   # unhashable callable
+            mdl = None
+        if mdl is not None:
+            return mdl.fn(self, *args, **kwargs) if isinstance(mdl, _m.Model) else mdl(self, *args, **kwargs)
         if isinstance(f, types.MethodType):
             s = f.__self__
             if isinstance(s, (Sym, MutSet)) or isinstance(s, _m.ModelHost):
@@ -336,6 +337,10 @@ class Interp:
                 return self.native(f, args, kwargs)
             if isinstance(f.__func__, types.FunctionType):
                 return self.call(f.__func__, (s,) + tuple(args), kwargs)
+        if isinstance(f, types.FunctionType) and hasattr(f, "__wrapped__") and f.__code__.co_filename.endswith("snakeoil/klass/immutable.py"):
+            # snakeoil's immutable.Simple wraps __init__ to open a mutation window around the real body; the engine's objects have no such
+            # lock, so the wrapper is dropped and the wrapped function (the text in /repo) is what runs
+            return self.call(f.__wrapped__, args, kwargs)
         if isinstance(f, types.FunctionType):
             if not has_sym(args) and not has_sym(kwargs) and self._native_ok(f):
                 return self.native(f, args, kwargs)
